@@ -290,7 +290,7 @@ func c10Stalled(kind, end string, rep *Report) (viol, detail string) {
 func c10(env *Env, rep *Report) {
 	ins := c10Inputs()
 	rep.Rule = fmt.Sprintf("(a) %d hostile packet inputs (every type in {0..0x12,0xFF,0x100,0xFFFF} x header length fields {0..16,true-1,true,true+1,4096,0xFFFF,2^31-1,2^31,2^32-1}; headers truncated at 0..7 bytes; every body truncation of each request; inner length fields {0,1,true-1,true,true+1,0x7FFF,0xFFFF}; field masks; invalid UTF-16) x 6 protocol phases (after 0..5 packets of the canonical session) x transports {processor, websocket, legacy}; "+
-		"(c) NTLM messages against the real verifier; (d) KDC-proxy bodies against the real handler; (e) every sequence of up to 3 requests from {RDG_IN_DATA, RDG_OUT_DATA, websocket upgrade, GET, unknown method} x connection ids {X, Y, none} against the real handler; (b) HTTP-level inputs against the real rdpgw binary (see the part reports); (h) a client that stopped reading while its host keeps writing (gateway writes block), then a bad header / out-of-order packet / channel close / nothing: another client is still served and nothing is left behind; (g) a tour of the real binary under 6 authentication configurations: login, download, token introspection, every registered route, and a complete session over each transport with the callbacks as main() wires them. Oracle for (a): no panic in any thread, a second client still completes a handshake afterwards, and after all clients left no gateway goroutine remains. distinct_nontrivial = distinct (input, phase, transport) cases.", len(ins))
+		"(c) NTLM messages against the real verifier; (d) KDC-proxy bodies against the real handler; (e) every sequence of up to 3 requests from {RDG_IN_DATA, RDG_OUT_DATA, websocket upgrade, GET, unknown method} x connection ids {X, Y, none} against the real handler; (b) HTTP-level inputs against the real rdpgw binary (see the part reports); (i) every end-of-tunnel fault scenario of C11 under the default schedule, judged for panics; (h) a client that stopped reading while its host keeps writing (gateway writes block), then a bad header / out-of-order packet / channel close / nothing: another client is still served and nothing is left behind; (g) a tour of the real binary under 6 authentication configurations: login, download, token introspection, every registered route, and a complete session over each transport with the callbacks as main() wires them. Oracle for (a): no panic in any thread, a second client still completes a handshake afterwards, and after all clients left no gateway goroutine remains. distinct_nontrivial = distinct (input, phase, transport) cases.", len(ins))
 	rep.Assumptions = append(rep.Assumptions, "each hostile input is one transport read (segmentations are C08's); table cookie checker")
 	if env.Replay != nil {
 		rp := env.Replay
@@ -355,6 +355,27 @@ func c10(env *Env, rep *Report) {
 	}
 	if env.Part == "" || env.Part == "g" {
 		distinct += c10Tour(env, rep)
+	}
+	if env.Part == "" || env.Part == "i" {
+		// (i) fault points: every end-of-tunnel scenario of C11 (client gone at each stage, one of the two legacy
+		// connections lost and the client continuing on the other, mid-packet drops, stalled clients) under the
+		// default schedule, judged for panics only (release of resources is C11's)
+		for i, sc := range c11Scenarios() {
+			n++
+			if !env.mine(n) {
+				continue
+			}
+			_ = i
+			distinct++
+			res := RunConc(sc, nil, false)
+			rep.add("executions", 1)
+			rep.add("transitions", int64(res.X.Steps))
+			for _, p := range res.X.Panics() {
+				rep.violate("C10/panic:"+shortFn(panicSite(p))+"/fault-point/"+strings.SplitN(sc.Name, "/", 2)[0], fmt.Sprintf("scenario %s, thread %s: %s", sc.Name, p.Name, p.Value), map[string]any{"noreplay": true})
+			}
+			res.X.Finish()
+			rep.outcome("i fault-point panics=" + fmt.Sprint(len(res.X.Panics()) > 0))
+		}
 	}
 	if (env.Part == "" || env.Part == "h") && env.Shard == 0 {
 		for _, kind := range []string{"ws", "legacy"} {
